@@ -168,7 +168,7 @@ func (r *Run) Finish(evidenceDir string, cmdline string, stats map[string]any) i
 		}
 	}
 	// samples: up to 2 per rule, violations first
-	var samples []Obligation
+	samples := []Obligation{}
 	samples = append(samples, bad...)
 	samples = append(samples, undec...)
 	samples = append(samples, known...)
